@@ -42,6 +42,14 @@ class Script:
         self.pos = 0
         self.trace = []
 
+    def early(self, live):
+        """Pooled nodes that finish WHILE the scheduler thread is busy running a main-thread node inline (their
+        completion is a fact before the scheduler next looks).  Random mode only: enumeration keeps its own space."""
+        if self.decisions is not None or self.rng is None or not live or self.rng.random() >= 0.3:
+            return []
+        live = sorted(live, key=lambda t: t.id)
+        return self.rng.sample(live, self.rng.randint(1, len(live)))
+
     def choose(self, live, all_mode):
         live = sorted(live, key=lambda t: t.id)
         if not live:
@@ -147,13 +155,15 @@ def _wait(fs, timeout=None, return_when=cf.ALL_COMPLETED):
         # with nothing finished (the in-flight nodes simply keep running)
         R.ev("wait", "conc", return_when, tuple(sorted(t.id for t in R.tickets if t.handle in fs)), (), "timeout")
         return _real_wait(fs, 0, return_when)
-    chosen = _choose(R, fs, return_when)
+    # tickets released early (while an inline node ran) are done already: this wait reports them whatever else it does
+    already = [t for t in R.tickets if t.handle in fs and t.gate.is_set()]
+    chosen = [] if (already and return_when != cf.ALL_COMPLETED) else _choose(R, fs, return_when)
     R.ev("wait", "conc", return_when,
-         tuple(sorted(t.id for t in R.tickets if t.handle in fs)), tuple(sorted(t.id for t in chosen)))
+         tuple(sorted(t.id for t in R.tickets if t.handle in fs)), tuple(sorted(t.id for t in chosen + already)))
     for t in chosen:
         t.gate.set()
-    if chosen:
-        _real_wait([t.handle for t in chosen])
+    if chosen or already:
+        _real_wait([t.handle for t in chosen + already])
     return _real_wait(fs, timeout, return_when)
 
 
@@ -190,6 +200,16 @@ def node_enter(i, args=None):
     if R is None:
         return None
     R.ev("enter", i, None if t is None else t.id, threading.get_ident() == R.main, args)
+    if t is None and threading.get_ident() == R.main:
+        # an inline (main-thread) node: some pooled thread nodes may finish while the scheduler is busy here
+        live = [x for x in R.tickets if x.kind == "thread" and x.handle is not None and not x.gate.is_set()
+                and x.node is not None]
+        early = R.script.early(live)
+        if early:
+            R.ev("early", tuple(sorted(x.id for x in early)))
+            for x in early:
+                x.gate.set()
+            _real_wait([x.handle for x in early], timeout=10)
     if t is not None:
         t.node = i
         if not t.gate.wait(30):
